@@ -106,3 +106,34 @@ Lemma gen_tmkernel_krange_eq W R nr nc :
   gen_tmkernel5_krange W R nr nc = [R * nr; nc * W; R * nr; nc * W] /\ gen_tmkernel_scalar_krange W R nr nc = [R * nr; nc; R * nr; nc] /\
   gen_tmkernel_mask0_krange W R nr nc = [R * nr; nc * W; R * nr; nc * W] /\ gen_tmkernel_mask1_krange W R nr nc = [R * nr; nc * W; R * nr; nc * W].
 Proof. repeat split; reflexivity. Qed.
+
+(** * Reductions and predicates (AbstractTensorFunctions.h), structure as translated:
+    sum / product / min / max use one and the same operation for the vector update, the scalar tail,
+    the horizontal fold and the final combination, seeded with 0 / 1 / numeric max / numeric lowest -
+    the shape [reduce op seed W n f] of Model/Reduce.v; the predicates are early-exit loops
+    (initial value, triggering element value, value on exit). *)
+From FastorV Require Import Model.Reduce.
+Lemma gen_reduce_structure :
+  gen_reduce_sum = [0; 0; 0; 0] /\ gen_reduce_product = [1; 1; 1; 1] /\ gen_reduce_min = [2; 2; 2; 2] /\ gen_reduce_max = [3; 3; 3; 3].
+Proof. repeat split; reflexivity. Qed.
+
+(* an early-exit loop with parameters (init, trigger, onexit) *)
+Fixpoint exit_loop (init trig onexit : bool) (f : nat -> bool) (i n : nat) : bool :=
+  match n with 0 => init | S n' => if Bool.eqb (f i) trig then onexit else exit_loop init trig onexit f (S i) n' end.
+Definition pred_of (skel : list bool) (f : nat -> bool) (n : nat) : bool :=
+  match skel with [a; b; c] => exit_loop a b c f 0 n | _ => false end.
+
+Lemma exit_loop_all f : forall n i, exit_loop true false false f i n = all_of_loop f i n.
+Proof. induction n as [|n IH]; intros i; simpl; [reflexivity|]. destruct (f i); simpl; [apply IH | reflexivity]. Qed.
+Lemma exit_loop_any f : forall n i, exit_loop false true true f i n = any_of_loop f i n.
+Proof. induction n as [|n IH]; intros i; simpl; [reflexivity|]. destruct (f i); simpl; [reflexivity | apply IH]. Qed.
+
+(** the translated predicates are the model's; in particular the body of none_of IS the body of any_of *)
+Lemma gen_predicates f n :
+  pred_of gen_pred_all_of f n = all_of f n /\ pred_of gen_pred_any_of f n = any_of f n /\ pred_of gen_pred_none_of f n = none_of f n.
+Proof.
+  unfold pred_of, gen_pred_all_of, gen_pred_any_of, gen_pred_none_of, all_of, any_of, none_of.
+  repeat split; first [apply exit_loop_all | apply exit_loop_any].
+Qed.
+Lemma gen_none_of_is_any_of_in_the_source : gen_pred_none_of = gen_pred_any_of.
+Proof. reflexivity. Qed.
